@@ -2,6 +2,7 @@
 """C17 — function bases are orthogonal eigenfunctions; basis Laplacians are exact.  Engine A.
 DESIGN.md section 7, C17."""
 import math
+import warnings
 import os
 import sys
 
@@ -93,7 +94,14 @@ def run_cases(ck, res, n_cases, n_interval):
                 # custom degree lists (any order, gaps): the operator must use each column's own degree
                 degs = r.sample(range(13), r.randint(1, 5))
                 md, n = tuple(degs), len(degs)
-                basis, op = FB.ZonalSphericalHarmonics(degrees=list(degs)), FB.ZonalSphericalHarmonicsLaplacian(degrees=list(degs))
+                if ci % 4 == 3:
+                    # both arguments given: the documentation says `degrees` wins and `max_degree` is ignored
+                    with warnings.catch_warnings():
+                        warnings.simplefilter('ignore')
+                        other = r.choice([len(degs) - 1, 2, 12, 0])
+                        basis, op = FB.ZonalSphericalHarmonics(max_degree=other, degrees=list(degs)), FB.ZonalSphericalHarmonicsLaplacian(max_degree=other, degrees=list(degs))
+                else:
+                    basis, op = FB.ZonalSphericalHarmonics(degrees=list(degs)), FB.ZonalSphericalHarmonicsLaplacian(degrees=list(degs))
             else:
                 basis, op = FB.ZonalSphericalHarmonics(max_degree=md), FB.ZonalSphericalHarmonicsLaplacian(max_degree=md)
             args_b, args_o = (T, P), (Rr, T, P)
